@@ -220,7 +220,7 @@ func (e *randEnv) project(ctx sdk.Context) any {
 
 func randEvent(name, who string) chain.M {
 	return chain.M{"name": name, "who": who, "n": int64(0), "oracle": false, "cap": int64(0), "ctx": "", "kind": "",
-		"seed": int64(0), "dt": int64(0), "prov": "", "txh": "", "ok": true, "panic": false, "halt": false, "gen": chain.M{}}
+		"seed": int64(0), "dt": int64(0), "prov": "", "rank": int64(0), "txh": "", "ok": true, "panic": false, "halt": false, "gen": chain.M{}}
 }
 
 func (e *randEnv) norm(ev chain.M) chain.M {
@@ -359,6 +359,7 @@ func (e *randEnv) runBlock(begin chain.M, pending []chain.M, w *chain.TraceWrite
 						if ps := cx["provs"].([]any); len(ps) > 0 {
 							ev["prov"] = ps[0]
 						}
+						ev["rank"] = cx["rank"]
 					}
 				}
 			}
